@@ -327,6 +327,22 @@ def generate(ctx):
     # bounds, keyword calls, substitutions, ...)
     ctx.run_given(S.any_expr(4), lambda s: ctx.judge("count", s), ctx.n(2000, 50000))
 
+    @st.composite
+    def array_case(draw):
+        # object arrays of rank 1-3, bare or as a call argument: one node per distinct
+        # element plus the array itself, nothing for rows or planes
+        shape = draw(st.sampled_from(([2], [1, 2], [2, 1], [2, 2], [2, 1, 2], [3], [2, 3],
+                                      [1, 1], [0])))
+        k = 1
+        for q in shape:
+            k *= q
+        pool = [draw(S.any_expr(2, wild=False, nan=False)) for _ in range(2)]
+        items = [draw(st.sampled_from(pool)) if draw(st.booleans())
+                 else draw(S.any_expr(1, wild=False, nan=False)) for _ in range(k)]
+        arr = ["NpArray", items] if len(shape) == 1 else ["NpArray", items, shape]
+        return arr if draw(st.booleans()) else ["Call", ["Var", "f"], [arr, pool[0]]]
+    ctx.run_given(array_case(), lambda s: ctx.judge("count", s), ctx.n(600, 12000))
+
 
 MANIFEST = {
     "text": ("Generated trees with composite leaves nested in one another are analysed "
